@@ -180,7 +180,7 @@ Section Proofs.
     let ovc := truthy (only_valid_cert c) in
     let must := truthy (want_signed c) || ovc in
     let sign_redirect := must && opt_eqb String.eqb (binding x) (Some BINDING_HTTP_REDIRECT) in
-    unravel (binding x) (enc x) (kind_eqb (b_kind (msg x)) (expected x)) = UMsg
+    unravel (binding x) (enc x) (kind_eqb (b_kind (msg x)) (expected x) && has_soap_parser (expected x)) = UMsg
     /\ b_kind (msg x) = expected x
     /\ match env x with
        | None => must && negb sign_redirect = false
@@ -196,7 +196,8 @@ Section Proofs.
     /\ issue_instant_ok c (now x) (msg x) = true.
   Proof.
     unfold parse_request. cbv zeta.
-    destruct (unravel (binding x) (enc x) (kind_eqb (b_kind (msg x)) (expected x))) eqn:Eu; try discriminate.
+    destruct (unravel (binding x) (enc x) (kind_eqb (b_kind (msg x)) (expected x) && has_soap_parser (expected x)))
+      eqn:Eu; try discriminate.
     destruct (kind_eqb (b_kind (msg x)) (expected x)) eqn:Ek; cbn [negb]; [|discriminate].
     match goal with |- (if negb ?t then _ else _) = _ -> _ => destruct t eqn:Eenv end; cbn [negb]; [|discriminate].
     match goal with |- (if ?t then _ else _) = _ -> _ => destruct t eqn:Ered end; [discriminate|].
@@ -314,7 +315,7 @@ Section Proofs.
 
   (* ---------- completeness: a valid request is accepted ---------- *)
   Definition well_transported (x : input) : Prop :=
-    unravel (binding x) (enc x) true = UMsg.
+    unravel (binding x) (enc x) (has_soap_parser (expected x)) = UMsg.
 
   Definition good_enveloped (x : input) (e : envsig) : Prop :=
     e_shape_ok e = true /\ xsd_ok (msg x) = true
@@ -371,7 +372,7 @@ Section Proofs.
     intros Hw Hk Henv Hpost Hred Hinst Hver Hdst Ht.
     unfold parse_request. cbv zeta.
     assert (Ek : kind_eqb (b_kind (msg x)) (expected x) = true) by (apply kind_eqb_eq; exact Hk).
-    rewrite Ek. unfold well_transported in Hw. rewrite Hw. cbn [negb].
+    rewrite Ek. unfold well_transported in Hw. cbn [andb]. rewrite Hw. cbn [negb].
     set (ovc := truthy (only_valid_cert (cfg x))).
     set (must := truthy (want_signed (cfg x)) || ovc).
     assert (Hmust : must = true -> requires_signed (cfg x)).
@@ -413,8 +414,70 @@ Section Proofs.
       destruct (receiver_addrs (cfg x) (service_of (expected x)) (binding x)); [reflexivity|].
       apply mem_In. exact Hdst. }
     rewrite E3. cbn [negb].
-    assert (E4 : issue_instant_ok (cfg x) (now x) (msg x) = true) by (unfold issue_instant_ok; lia).
+    assert (E4 : issue_instant_ok (cfg x) (now x) (msg x) = true) by (clear - Ht; unfold issue_instant_ok; lia).
     rewrite E4. reflexivity.
+  Qed.
+
+  (* ---------- lives: receivers in one process, metadata reloads ---------- *)
+  Notation op := (op cert esig dsig doc).
+  Notation life := (run_life everify dverify).
+
+  Lemma run_life_app st (a b : list op) :
+    life st (a ++ b) = (life st a ++ life (state_after st a) b)%list.
+  Proof.
+    revert st. induction a as [|o a IH]; intros st; [reflexivity|].
+    destruct o as [r x|r m|r]; cbn [app run_life state_after]; rewrite IH; reflexivity.
+  Qed.
+
+  Lemma state_after_app st (a b : list op) : state_after st (a ++ b) = state_after (state_after st a) b.
+  Proof.
+    revert st. induction a as [|o a IH]; intros st; [reflexivity|].
+    destruct o as [r x|r m|r]; cbn [app state_after]; apply IH.
+  Qed.
+
+  (* every request of a life is judged by parse_request against the metadata its receiver holds at
+     that moment: the one it was built with or the one of the last successful reload OF THAT receiver *)
+  Theorem life_current_md st (pre : list op) r x :
+    life st (pre ++ [Req r x])
+    = (life st pre ++ [(with_md x (state_after st pre r), parse (with_md x (state_after st pre r)))])%list.
+  Proof. rewrite run_life_app. reflexivity. Qed.
+
+  Theorem state_after_reload st (pre : list op) r m r' :
+    state_after st (pre ++ [Reload r m]) r' = if Nat.eqb r' r then m else state_after st pre r'.
+  Proof. rewrite state_after_app. reflexivity. Qed.
+
+  Theorem state_after_no_trace st (pre : list op) o :
+    (forall r m, o <> Reload r m) -> state_after st (pre ++ [o]) = state_after st pre.
+  Proof.
+    intros Ho. rewrite state_after_app. destruct o as [r x|r m|r]; [reflexivity| |reflexivity].
+    exfalso. apply (Ho r m). reflexivity.
+  Qed.
+
+  (* the property holds of every request of every life *)
+  Theorem life_sound st (ops : list op) :
+    Forall (fun p => spec cert_of esign dsign (fst p) (snd p)) (life st ops).
+  Proof.
+    revert st. induction ops as [|o t IH]; intros st; [constructor|].
+    destruct o as [r x|r m|r]; cbn [run_life]; [|apply IH|apply IH].
+    constructor; [apply soundness|apply IH].
+  Qed.
+
+  Lemma md_certs_with_md (x : input) m : md_certs (cfg (with_md x m)) = m.
+  Proof. reflexivity. Qed.
+
+  (* key roll-over: once receiver r has reloaded metadata m, a Redirect request to r under a signing
+     requirement whose detached signature was made with a key that m does not list for the sender is
+     rejected — whatever was accepted before, on this receiver or on any other *)
+  Theorem retired_key_rejected st (pre : list op) r x :
+    requires_signed (cfg x) -> binding x = Some BINDING_HTTP_REDIRECT ->
+    (forall k sa, sigalg x = Some sa -> signature x = Some (dsign k (origdoc x, relay_state x, sa)) ->
+       ~ In (cert_of k) (state_after st pre r (sender (msg x)))) ->
+    parse (with_md x (state_after st pre r)) <> Accept.
+  Proof.
+    intros Hreq Hb Hk Hacc.
+    pose proof (soundness _ Hacc) as [H _]. cbv zeta in H.
+    destruct (H Hreq) as [H1 _]. destruct (H1 Hb) as (k & sa & sg & Ha & Hg & Hs & Hm).
+    subst sg. apply (Hk k sa Ha Hg). exact Hm.
   Qed.
 End Proofs.
 
